@@ -3,7 +3,8 @@
 PATCH=$1; ID=$2; TIER=${3:-quick}
 cd /repo && git diff --quiet || { echo "repo dirty"; exit 2; }
 git -C /repo apply $PATCH || { echo "patch does not apply"; exit 2; }
-cd /verif && ./check $ID --tier $TIER > /tmp/seed_run_$ID.log 2>&1; RC=$?
+# evidence and artefacts of the seeded run go to a scratch root: /verif/evidence keeps describing the real tree
+cd /verif && VERIF_OUT_ROOT=/tmp/seedrun_out ./check $ID --tier $TIER > /tmp/seed_run_$ID.log 2>&1; RC=$?
 git -C /repo checkout -- .
 tail -4 /tmp/seed_run_$ID.log
 echo "seed_run exit=$RC"
